@@ -227,6 +227,10 @@ class SpecGen:
         r, cfg = self.rng, self.cfg
         x = r.random()
         nm = f"f{len(self.nodes)}"
+        if cfg.get("lib_steps") and r.random() < 0.3:
+            # a step from labrea.functions (the library's own helpers), possibly with an Evaluatable argument
+            expr = r.choice(LIB_STEPS_LOCAL if cfg["lib_steps"] == "all" and r.random() < 0.3 else LIB_STEPS)
+            return {"t": "lib", "expr": expr, "refs": {"p": self.pick_any()} if "{p}" in expr else {}}
         if x < 0.5 or not (cfg["step_params"] or cfg["pipelines"]):
             return {"t": "fn", "name": nm}
         if x < 0.8 and cfg["step_params"]:
@@ -751,7 +755,23 @@ def dsclass_members(by, n):
     return out
 
 
+LIB_STEPS = [
+    # (expression over labrea.functions as F and the importable user functions in labsim.c20rt as _s; {p}: an Evaluatable)
+    "F.reduce(_s.pair)", "F.reduce(_s.pair, initial=0)", "F.reduce(_s.pair, initial={p})", "F.reduce(_s.pair, initial={p})",
+    "F.map(_s.tag) + _s.step(_s.collect1)", "F.filter(_s.truthy) + _s.step(_s.collect1)", "F.flatmap(_s.twice) + _s.step(_s.collect1)",
+    "F.flatten + _s.step(_s.collect1)", "F.get(0, 'dflt')", "F.get({p}, None)", "F.get_from({p}, 'nf')", "F.partial(_s.pair, {p})",
+    "F.ensure(_s.truthy, 'falsy')", "F.call_method('upper')",
+]
+# helpers that close over a lambda / local function: their steps cannot be pickled (KF-C20-functions-helpers-close-over-lambdas)
+LIB_STEPS_LOCAL = [
+    "F.all(F.instance_of(int), F.gt(0))", "F.any(F.instance_of(str), F.eq({p}))", "F.invert(F.is_in({p}))",
+    "F.append({p}) + _s.step(_s.collect1)", "F.concat({p}) + _s.step(_s.collect1)", "F.one_of(1, {p})", "F.into(_s.collect)",
+]
+
+
 def _fn_children(f):
+    if f["t"] == "lib":
+        return list(f["refs"].values())
     if f["t"] == "step":
         return list(f["params"].values())
     if f["t"] == "pipeline":
